@@ -123,10 +123,17 @@ def run(repo: Repo, rep: Report, tier: str) -> None:
     ins = [c for c in calls_in(res.node, "insert") if c.args and isinstance(c.args[0], ast.Constant) and c.args[0].value == 0]
     ok_first = bool(ins) and "base_path" in norm(ins[0].args[1]) and "resolve()" in norm(ins[0].args[1])
     rep.check(ok_first, "C17-R2", "the importing file's directory is tried first, as an absolute path", norm(ins[0]) if ins else "no insert(0, base)", res.loc(ins[0]) if ins else res.loc())
-    loop_ok = any(isinstance(n, ast.For) and norm(n.iter) == "base_paths" for n in walk_local(res.node))
+    from .util import canon as _canon
+    cres = _canon(res)
+    loop_ok = bool(ins) and isinstance(ins[0].func, ast.Attribute) and isinstance(ins[0].func.value, ast.Name) and any(
+        isinstance(n, ast.For) and isinstance(n.iter, ast.Name) and n.iter.id == ins[0].func.value.id and "FACTORIO_IMPORT_PATH" in cres.text(n.iter) for n in walk_local(res.node))
     rep.check(loop_ok, "C17-R2", "entries are tried in list order", "for base in base_paths", res.loc())
-    bp = [n for n in walk_local(parse.node) if isinstance(n, ast.Assign) and norm(n.targets[0]) == "base_path" and "file_path" in norm(n.value)]
-    rep.check(bool(bp) and norm(bp[0].value) == "file_path.parent", "C17-R2", "base path of a file input is the directory of that file", norm(bp[0]) if bp else "missing", parse.loc(bp[0]) if bp else parse.loc())
+    cparse = _canon(parse)
+    pcs = calls_in(parse.node, "preprocess_imports")
+    alts = cparse.alts(pcs[0].args[1]) if pcs and len(pcs[0].args) >= 2 else []
+    file_alts = [a for a in alts if "filename" in a]
+    ok_bp = bool(file_alts) and all(a in ("Path(filename).parent", "(Path.cwd() / Path(filename)).resolve().parent", "ANY((Path.cwd() / Path(filename)).resolve(), Path(filename)).parent") for a in file_alts)
+    rep.check(ok_bp, "C17-R2", "base path of a file input is the directory of that file", "; ".join(file_alts) if alts else "missing", parse.loc(pcs[0]) if pcs else parse.loc())
     libdir = repo.root / "lib"
     libs = sorted(p.name for p in libdir.glob("*.facto")) if libdir.is_dir() else []
     rep.floor("C17-R2", "bundled library files", len(libs), 3)
